@@ -22,6 +22,7 @@
 #include <xercesc/sax/HandlerBase.hpp>
 #include <xercesc/sax/AttributeList.hpp>
 #include <memory>
+#include <map>
 #include <algorithm>
 #include <cstring>
 
@@ -51,7 +52,16 @@ public:
 struct AttrHandler : public HandlerBase {
     Rec* rec = 0;
     const std::string* ext = 0;     // if set: the text served for every external entity (the external DTD subset)
+    const std::map<std::string, std::string>* files = 0;   // if set: system id (last path segment) -> text
     InputSource* resolveEntity(const XMLCh* const, const XMLCh* const systemId) override {
+        if (files) {
+            std::string sid = narrow(systemId);
+            size_t p = sid.find_last_of('/');
+            if (p != std::string::npos) sid = sid.substr(p + 1);
+            auto it = files->find(sid);
+            if (it == files->end()) return new MemBufInputSource((const XMLByte*)"", 0, systemId, false);
+            return new MemBufInputSource((const XMLByte*)it->second.data(), it->second.size(), systemId, false);
+        }
         if (!ext) return 0;
         return new MemBufInputSource((const XMLByte*)ext->data(), ext->size(), systemId, false);
     }
@@ -119,17 +129,19 @@ static void mixedLeaves(const ContentSpecNode* n, std::vector<std::string>& out,
 
 static std::string runOne(const XMLCh* scanner, const std::string& doc, Rec& rec, bool wantTree,
                           const std::vector<int>& kids, std::string& tree, std::string& verdict,
-                          bool validate = true, const std::string* ext = 0, bool ns = false) {
+                          bool validate = true, const std::string* ext = 0, bool ns = false,
+                          const std::map<std::string, std::string>* files = 0) {
     CodeParser p;
     AttrHandler ah;
     ah.rec = &rec;
     ah.ext = ext;
+    ah.files = files;
     p.rec = &rec;
     p.useScanner(scanner);
     p.setValidationScheme(validate ? SAXParser::Val_Always : SAXParser::Val_Never);
     p.setDoNamespaces(ns);
     p.setDocumentHandler(&ah);
-    if (ext) p.setEntityResolver(&ah);
+    if (ext || files) p.setEntityResolver(&ah);
     p.setErrorHandler(&ah);   // installs the parser as the scanner's XMLErrorReporter (our override records codes)
     try {
         MemBufInputSource src((const XMLByte*)doc.data(), doc.size(), "mem", false);
@@ -246,6 +258,33 @@ static std::string doDoc(const std::vector<std::string>& a) {
     return "e=" + e + " a=" + join(ig.attrs);
 }
 
+// docx <v|n> <hex document> <name>=<hex>,<name>=<hex>,... : like doc, external entities served by system id
+static std::string doDocx(const std::vector<std::string>& a) {
+    auto unhex = [](const std::string& h) { std::vector<uint32_t> b = parseHex(h, 2); std::string s; for (uint32_t c : b) s += (char)c; return s; };
+    std::string doc = unhex(a[2]);
+    std::map<std::string, std::string> files;
+    std::istringstream is(a[3]);
+    std::string item;
+    while (std::getline(is, item, ',')) {
+        size_t p = item.find('=');
+        if (p == std::string::npos) continue;
+        std::string h = item.substr(p + 1);
+        files[item.substr(0, p)] = h == "-" ? std::string() : unhex(h);
+    }
+    bool validate = a[1] == "v";
+    Rec ig, dgr;
+    std::string t, v;
+    std::vector<int> none;
+    std::string x1 = runOne(XMLUni::fgIGXMLScanner, doc, ig, false, none, t, v, validate, 0, false, &files);
+    std::string x2 = runOne(XMLUni::fgDGXMLScanner, doc, dgr, false, none, t, v, validate, 0, false, &files);
+    std::string e;
+    if (!x1.empty() || !x2.empty()) e = "IG:" + x1 + "/" + join(ig.codes) + ";DG:" + x2 + "/" + join(dgr.codes);
+    else if (ig.codes != dgr.codes || ig.attrs != dgr.attrs)
+        e = "IG:" + join(ig.codes) + "/" + join(ig.attrs) + ";DG:" + join(dgr.codes) + "/" + join(dgr.attrs);
+    else e = join(ig.codes);
+    return "e=" + e + " a=" + join(ig.attrs);
+}
+
 static std::string joinWith(const std::vector<std::string>& v, const char* sep) {
     std::string r;
     for (size_t i = 0; i < v.size(); i++) { if (i) r += sep; r += v[i]; }
@@ -301,7 +340,8 @@ int main() {
         try {
             if (a.size() == 7 && a[0] == "cm") r = doCm(a);
             else if ((a.size() == 3 || a.size() == 4) && a[0] == "doc") r = doDoc(a);
-            else if (a.size() == 7 && (a[0] == "attr" || a[0] == "tattr")) r = doAttr(a);
+            else if (a.size() == 4 && a[0] == "docx") r = doDocx(a);
+            else if ((a.size() == 7 || a.size() == 8) && (a[0] == "attr" || a[0] == "tattr")) r = doAttr(a);
         } catch (...) {
             r = "harness-exception";
         }
